@@ -111,6 +111,8 @@ pub const PAYLOADS: &[&str] = &[
     "pv := [1]\npw := pv\npv += [2]\nprint(pw)\nprint(pv === pw)\n",
     "pv := 1\npw := 2\n[pv, pw] = [pw, pv]\nprint([pv, pw])\n[pv, pw] = [pw, pv + pw]\nprint([pv, pw])\n",
     "pv := [1, 2, 3]\n[pv[0], pv[2]] = [pv[2], pv[0]]\nprint(pv)\n",
+    "pv := {\"id\": \"A\", \"f\": fn () {\nreturn this.id\n}}\npw := {\"id\": \"B\", \"f\": pv.f}\npg := pv.f\nprint(pg())\npg = pw.f\nprint(pg())\npg = pv.f\nprint(pg())\n",
+    "pv := [fn () {\nreturn 1\n}, fn () {\nreturn 2\n}]\npg := pv[0]\nprint(pg())\npg = pv[1]\nprint(pg())\npv[0] = pv[1]\nprint(pv[0]())\n",
     "pv := 1\nif true {\nprint({pv})\nfor pe in [0] {\nprint({pv, pe})\n}\n}\n",
     "pv := [0]\nprint([pv, pv])\nprint({\"a\": pv, \"b\": [pv]})\n",
     "pv := {\"k\": 1}\npw := {\"x\": pv, \"y\": pv}\nprint(pw)\nprint(pw.x === pw.y)\n",
